@@ -35,12 +35,13 @@ def renderRange (r : PortRange) : List Char :=
 
 def renderPorts (rs : List PortRange) : List Char := join ',' (rs.map renderRange)
 
-/-- count with optional sign, as a non-negative 32-bit integer -/
+/-- count with optional sign, as a non-negative 32-bit integer (a `-` sign is therefore possible on
+    zero only: `-0` is the count 0, as `strconv.ParseInt` reads it) -/
 def denoteCount (s : List Char) : Option Nat :=
-  let d := match s with
-    | '+' :: d => d
-    | d => d
-  (decimal d).bind (fun n => if n < 2 ^ 31 then some n else none)
+  match s with
+  | '-' :: d => (decimal d).bind (fun n => if n = 0 then some 0 else none)
+  | '+' :: d => (decimal d).bind (fun n => if n < 2 ^ 31 then some n else none)
+  | d => (decimal d).bind (fun n => if n < 2 ^ 31 then some n else none)
 
 /-- a Go duration literal starts with a sign, a digit or a dot; anything else is a bare unit and means
     one of that unit -/
